@@ -30,7 +30,7 @@ def query(S, timeout_ms, kind):
 
 
 def check_spec(name, spec, sub_instrs, max_len):
-    rec = {"name": name, "n": spec["init_progr_len"], "bs": spec["max_sk_sz"], "bad": [], "verdict": "ok",
+    rec = {"name": name, "n": spec["init_progr_len"], "bs": spec["max_sk_sz"], "bad": [], "verdict": "ok", "rules": list(spec.get("rules", [])),
            "orig": spec.get("original_instrs", "")}
     if spec.get("original_instrs", "").split() != " ".join(sub_instrs).split():
         rec["bad"].append("original_instrs %r is not the sub-block %r" % (spec.get("original_instrs"), " ".join(sub_instrs)))
@@ -112,6 +112,9 @@ def main():
     texts += F.f_rule_pairs(both, consts=[0, 1, F.MASK], contexts=("stack",))[:: (3 if tier == "quick" else 1)]
     texts += F.f_mem((2,), deltas=[0, 32])
     texts += F.f_exh(2 if tier == "quick" else 3)
+    texts += F.f_exh(3, vocab=F.V_EXH2)[:: (2 if tier == "quick" else 1)]
+    if tier == "thorough":
+        texts += F.f_exh(4, vocab=F.V_EXH2)[::16]
     if tier == "thorough":
         texts += F.f_mem((3,), deltas=[0, 16], ops=("MSTORE", "MLOAD", "MSTORE8"))
     texts = list(dict.fromkeys(texts))
@@ -120,7 +123,7 @@ def main():
     osets = [gasol.optset("none", "gas", True, True, "greedy"), gasol.optset("none", "size", False, True, "greedy"),
              gasol.optset("storage", "gas", True, False, "greedy"), gasol.optset("partition", "length", True, True, "greedy")]
     for k, o in enumerate(osets):
-        g = 1 if k == 0 or tier == "thorough" else 3
+        g = 1 if k == 0 else 3
         jobs = [("text", t) for i, t in enumerate(texts) if i % g == 0]
         nd = 1 if tier == "quick" else 4
         for d in [docs[(k * nd + i) % len(docs)] for i in range(nd)]:
@@ -149,7 +152,13 @@ def main():
             if rec.get("harness"):
                 rep.harness_error(rec["harness"])
             for b in rec["bad"]:
-                rep.violation("bounds:%s:%s" % (rec.get("text", rec["name"]), b[:40]), b + " [sub-block %s, options %s]" % (rec.get("orig"), on),
+                key = "bounds:%s:%s" % (rec.get("text", rec["name"]), b[:40])
+                if b.startswith("no realizing sequence of length <= init_progr_len"):
+                    # mechanism-level identity: the set of rules whose accumulated discount makes the bound infeasible
+                    import re as _re
+                    names = sorted({_re.sub(r"^EVAL.*", "EVAL", r_) for r_ in rec.get("rules", [])})
+                    key = "infeasible-init_progr_len:rules=%s" % ",".join(names)
+                rep.violation(key, b + " [sub-block %s, options %s]" % (rec.get("orig"), on),
                               {"options": o, "input": rec.get("text"), "core": rec.get("text")})
     # merge solver statistics of the last message of each worker unit (they are cumulative per process)
     seen = {}
